@@ -113,12 +113,18 @@ def run_case(case):
             res.label("boundary_next_to_wide_or_mark")
             res.nontrivial = True
     evals = 0
-    w, e = call(lambda: f.width)
+
+    def check_width():
+        w, e = call(lambda: f.width)
+        if e is not None:
+            res.viol("width_raised", desc=desc, error=exc_str(e))
+        elif w != W:
+            res.viol("width_wrong", desc=desc, got=w, expected=W)
+
+    offsets_first = bool(case.get("offsets_first", len(src) % 2))  # either order of the two measurements
+    if not offsets_first:
+        check_width()
     evals += 1
-    if e is not None:
-        res.viol("width_raised", desc=desc, error=exc_str(e))
-    elif w != W:
-        res.viol("width_wrong", desc=desc, got=w, expected=W)
     acc = 0
     for n in range(len(src) + 1):
         evals += 1
@@ -129,6 +135,13 @@ def run_case(case):
             res.viol("width_at_offset_wrong", n=n, desc=desc, got=got, expected=acc)
         if n < len(src):
             acc += cw(src[n][0])
+    if offsets_first:
+        res.label("offsets_measured_before_width")
+        check_width()
+    # a second pair of measurements in the middle of the string, then the total again
+    if src:
+        call(lambda: f.width_at_offset(len(src) // 2))
+        check_width()
     if W <= 14:
         edges = list(range(0, W + 3))
     else:
@@ -170,7 +183,7 @@ def layouts(s):
 def strategy():
     from ..gen import OBS as gen_OBS
 
-    alpha = "ab" + "Ｅ中" + "̤́"
+    alpha = "ab" + "Ｅ中" + "̤́" + widths.EXTRA_ZERO + widths.EXTRA_WIDE
     run = st.tuples(st.text(alphabet=alpha, min_size=0, max_size=5), st.sampled_from(FMTS)).map(list)
     long_run = st.tuples(st.text(alphabet=alpha + "aaab", min_size=10, max_size=70), st.sampled_from(FMTS)).map(list)
     return st.fixed_dictionaries({"desc": st.one_of(st.lists(run, min_size=0, max_size=5), st.lists(run, min_size=0, max_size=5),
